@@ -8,6 +8,10 @@ import (
 // This is based on the proposed FEC code from the Fragmented Data Block Transport over
 // LoRaWAN recommendation.
 func Encode(data []byte, fragmentSize, redundancy int) ([][]byte, error) {
+	if fragmentSize <= 0 {
+		return nil, errors.New("fragment-size must be greater than zero")
+	}
+
 	if len(data)%fragmentSize != 0 {
 		return nil, errors.New("length of data must be a multiple of the given fragment-size")
 	}
